@@ -36,6 +36,19 @@ func cosFlags(opt rules.CosmeticOption) string {
 }
 
 func genCosopt(r *rng, n int, w *bufio.Writer) {
+	// emitSrc: the same rule is also among the rules matching the referrer (a same-site navigation)
+	emitSrc := func(f *rules.NetworkRule, names []string, src []*rules.NetworkRule) {
+		res := rules.NewMatchingResult([]*rules.NetworkRule{f}, src)
+		opt := res.GetCosmeticOption()
+		ws := make([]string, len(src))
+		ts := make([]string, len(src))
+		for i, x := range src {
+			ws[i] = wnetrule(x)
+			ts[i] = x.RuleText
+		}
+		fmt.Fprintf(w, "cosopt %s (%s) %s = %d:%s ## %s with referrer rules [%s]\n", wnetrule(f), strings.Join(names, " "), wlist(ws...),
+			uint32(opt), cosFlags(opt), f.RuleText, strings.Join(ts, " ; "))
+	}
 	emit := func(f *rules.NetworkRule, names []string) {
 		var res *rules.MatchingResult
 		wr := "_"
@@ -73,6 +86,17 @@ func genCosopt(r *rng, n int, w *bufio.Writer) {
 			panic(text + ": " + err.Error())
 		}
 		emit(f, names)
+		// the referrer is covered by the same exception, by a $genericblock one, by a $urlblock one
+		switch mask % 4 {
+		case 0:
+			emitSrc(f, names, []*rules.NetworkRule{f})
+		case 1:
+			emitSrc(f, names, []*rules.NetworkRule{mustRule("@@||e.org^$genericblock")})
+		case 2:
+			emitSrc(f, names, []*rules.NetworkRule{mustRule("@@||e.org^$urlblock"), f})
+		default:
+			emitSrc(f, names, []*rules.NetworkRule{f, mustRule("@@||e.org^$genericblock,urlblock")})
+		}
 	}
 	// non-exception and absent basic rules
 	emit(nil, nil)
